@@ -751,6 +751,8 @@ def run(pid, tier):
                to_native_args=lambda a: ["regex", a[0], a[1]], compare=rule_cmp)
     # cram glob
     pats = sorted(set("".join(t) for n in range(0, (3 if q else 4) + 1) for t in itertools.product("a*?\\.", repeat=n)))
+    # every other regex metacharacter is a literal in a glob
+    pats = sorted(set(pats) | set("".join(t) for n in range(1, 4) for t in itertools.product("a*|(+", repeat=n) if any(c in t for c in "|(+")))
     hg = h_cram_glob(pats, 3 if q else 4)
     e2.process(rep, prog, NAT, hg, tier, to_native_args=lambda a: [a[0]])
     hr = h_cram_glob_rule(sorted(set("".join(t) for n in range(0, (2 if q else 3) + 1) for t in itertools.product("a*?", repeat=n))))
